@@ -15,7 +15,7 @@ RULE = ("subsample / downsample / powerlaw_sample run under the RNG seam: every 
 ASSUMPTIONS = ["uniform variates cannot be enumerated: answered from the boundary grid %r (both ends of [0,1))" % (UNIFORM_GRID,),
                "ordered samples are enumerated when there are at most 720 of them, otherwise every unordered subset in ascending and descending order",
                "'exact' MLE: the log-likelihood is concave in alpha, so the maximiser lies within one grid step of the best of 3001 grid points"]
-REQUIRED_CLASSES = {"all": ["subsample-n-equals-total", "subsample-n-too-large", "zero-count-category", "downsample-identity", "downsample-table", "uniform-near-1", "mle-all-counts-equal-cmin", "many-categories"]}
+REQUIRED_CLASSES = {"all": ["subsample-n-equals-total", "subsample-n-too-large", "zero-count-category", "downsample-identity", "downsample-table", "uniform-near-1", "mle-all-counts-equal-cmin", "many-categories", "sparse-draw"]}
 MIN_OUTCOMES = 10
 
 
@@ -33,6 +33,12 @@ def spaces(tier):
         for ncat in (255, 256, 257, 300) + (() if q else (65537,)):
             for top in (1, 3):
                 yield ("subsample-many", ncat, top)
+
+    def gen_sparse():
+        for counts in ((60, 50, 40, 1), (1, 120), (101,), (3, 0, 100, 2), (40, 40, 40, 40)):
+            yield ("subsample-sparse", counts)
+        for N in (65, 129, 130):
+            yield ("downsample-long", N)
 
     def gen_down():
         for n in range(0, 5 if q else 6):
@@ -53,6 +59,7 @@ def spaces(tier):
     return [
         Space("subsample-all-count-vectors", gen_sub, "count vectors of length 1..4, entries 0..3 (thorough 0..4), total <= 6 (quick) / 10 (thorough) x n in 0..total+1 x every RNG answer", shards=64),
         Space("subsample-many-categories", gen_many, "count vectors with 255..300 (thorough: 65537) categories, entries cycling through 0..top: n = total (one possible sub-sample, both orders) and n = 1 (every single item), conservation laws on every RNG answer", per_case=True),
+        Space("sparse-draws", gen_sparse, "subsample of n=1 (and n=2 for totals <= 130) items out of 101..151; downsample of 2 out of 65..130 distinct elements of an ndarray/list: every RNG answer, exact uniformity over items / pairs", per_case=True),
         Space("downsample-all-multisets", gen_down, "multisets of 0..4(5) strings over {A,B,AB} as list/ndarray/Series/table/table with duplicated index labels x maxseqs in {None,0..N+1} x every RNG answer"),
         Space("powerlaw_sample-uniform-grid", gen_pl, "size 0..3 x xmin 1..4 x alpha {1.5,2,3.5} x uniform grid^size"),
         Space("powerlaw_mle-all-multisets", gen_mle, "multisets of 1..4(5) counts from 1..6 x cmin {1, 2, 1.5, 2.5} (closed forms; exact fit for integer cmin) x 3 methods"),
@@ -168,6 +175,63 @@ def check_case(case, acc):
                 acc.fail("subsample/many-categories/not-every-item-reachable", case, N, seen_items)
                 return
             acc.ok((ncat, top, n, seen_items), nontrivial=True)
+    elif kind == "subsample-sparse":
+        counts = case[1]
+        N = sum(counts)
+        acc.cls("sparse-draw")
+        for n in (1,):
+            holder = {}
+
+            def run(ch):
+                with rng_seam(ch) as seam:
+                    r = acc.call(pyrepseq.subsample, list(counts), n)
+                    holder["prob"] = seam.prob
+                return r
+            dist = {}
+            for choices, r in explore_choices(run):
+                if raised(r):
+                    acc.fail("subsample/sparse/raised-%s" % r.type, case, "indices, counts", r)
+                    return
+                idx, cnt = [int(x) for x in r[0]], [int(x) for x in r[1]]
+                if len(idx) != 1 or cnt != [1] or not (0 <= idx[0] < len(counts)) or counts[idx[0]] == 0:
+                    acc.fail("subsample/sparse/conservation", case, "one item of a non-empty category", {"indices": idx, "counts": cnt})
+                    return
+                dist[idx[0]] = dist.get(idx[0], 0) + holder["prob"]
+            exp = {i: Fraction(c, N) for i, c in enumerate(counts) if c}
+            if dist != exp:
+                acc.fail("subsample/not-uniform-over-items", case, {str(k): str(v) for k, v in exp.items()}, {str(k): str(v) for k, v in dist.items()}, note="n=1 of %d" % N)
+                return
+            acc.ok((counts, len(dist)), nontrivial=True)
+    elif kind == "downsample-long":
+        N = case[1]
+        acc.cls("sparse-draw")
+        for cname in ("ndarray", "list"):
+            seqs = ["s%03d" % i for i in range(N)]
+            holder = {}
+
+            def run(ch):
+                box = np.array(seqs) if cname == "ndarray" else list(seqs)
+                with rng_seam(ch) as seam:
+                    r = acc.call(pyrepseq.downsample, box, 2)
+                    holder["prob"] = seam.prob
+                return r
+            total = Fraction(0)
+            pairs = {}
+            for choices, r in explore_choices(run):
+                if raised(r):
+                    acc.fail("downsample/long-%s/raised-%s" % (cname, r.type), case, "2 elements", r)
+                    return
+                out = [str(x) for x in r]
+                if len(out) != 2 or out[0] == out[1] or any(o not in seqs for o in out):
+                    acc.fail("downsample/long-%s/not-exactly-maxseqs-distinct-elements" % cname, case, "2 distinct elements of the input", out, note="RNG answers %r" % (choices,))
+                    return
+                key = tuple(sorted(out))
+                pairs[key] = pairs.get(key, 0) + holder["prob"]
+                total += holder["prob"]
+            if total != 1 or len(pairs) != N * (N - 1) // 2 or len(set(pairs.values())) != 1:
+                acc.fail("downsample/long-%s/not-uniform-over-pairs" % cname, case, "%d equally likely pairs" % (N * (N - 1) // 2), "%d pairs, %d distinct probabilities, total %s" % (len(pairs), len(set(pairs.values())), total))
+                return
+            acc.ok((N, cname, len(pairs)), nontrivial=True)
     elif kind == "subsample1":
         check_case(("subsample", case[1]), acc)
     elif kind == "downsample":
